@@ -1,0 +1,164 @@
+//! Verification hooks (compiled only with `--cfg lexgen_verif`).
+//!
+//! Serialises internal artifacts of the macro pipeline to `$LEXGEN_VERIF_DUMP/<LexerName>.dump`
+//! so that an external checker can compare them with a formal model. Nothing here changes what the
+//! macro computes.
+
+use crate::ast::{CharOrRange, Regex};
+use crate::semantic_action_table::SemanticActionIdx;
+
+use std::cell::RefCell;
+use std::fmt::Write as _;
+
+thread_local! {
+    static BUF: RefCell<String> = RefCell::new(String::new());
+}
+
+pub fn enabled() -> bool {
+    std::env::var_os("LEXGEN_VERIF_DUMP").is_some()
+}
+
+pub fn emit(s: &str) {
+    BUF.with(|b| {
+        let mut b = b.borrow_mut();
+        b.push_str(s);
+        if !s.ends_with('\n') {
+            b.push('\n');
+        }
+    });
+}
+
+pub fn reset() {
+    BUF.with(|b| b.borrow_mut().clear());
+}
+
+pub fn flush(lexer_name: &str) {
+    if let Some(dir) = std::env::var_os("LEXGEN_VERIF_DUMP") {
+        let mut path = std::path::PathBuf::from(dir);
+        path.push(format!("{}.dump", lexer_name));
+        let contents = BUF.with(|b| b.borrow().clone());
+        let _ = std::fs::write(path, contents);
+    }
+    reset();
+}
+
+/// Values stored in accepting states / transitions that can be printed as one token.
+pub trait VerifVal {
+    fn vv(&self) -> String;
+}
+
+impl VerifVal for SemanticActionIdx {
+    fn vv(&self) -> String {
+        self.as_usize().to_string()
+    }
+}
+
+impl VerifVal for () {
+    fn vv(&self) -> String {
+        "u".to_string()
+    }
+}
+
+impl VerifVal for u32 {
+    fn vv(&self) -> String {
+        self.to_string()
+    }
+}
+
+pub fn sorted_join<I: Iterator<Item = usize>>(iter: I) -> String {
+    let mut v: Vec<usize> = iter.collect();
+    v.sort_unstable();
+    let mut s = String::new();
+    for (i, x) in v.iter().enumerate() {
+        if i != 0 {
+            s.push(',');
+        }
+        write!(s, "{}", x).unwrap();
+    }
+    if s.is_empty() {
+        s.push('-');
+    }
+    s
+}
+
+fn chars_hex(s: &mut String, cs: impl Iterator<Item = char>) {
+    let mut first = true;
+    for c in cs {
+        if !first {
+            s.push(',');
+        }
+        first = false;
+        write!(s, "{}", c as u32).unwrap();
+    }
+    if first {
+        s.push('-');
+    }
+}
+
+/// Canonical s-expression of a regex (code points in decimal).
+pub fn regex_sexp(re: &Regex) -> String {
+    let mut s = String::new();
+    regex_sexp_(&mut s, re);
+    s
+}
+
+fn regex_sexp_(s: &mut String, re: &Regex) {
+    match re {
+        Regex::Builtin(b) => write!(s, "(builtin {})", b.0).unwrap(),
+        Regex::Var(v) => write!(s, "(var {})", v.0).unwrap(),
+        Regex::Char(c) => write!(s, "(char {})", *c as u32).unwrap(),
+        Regex::String(str) => {
+            s.push_str("(str ");
+            chars_hex(s, str.chars());
+            s.push(')');
+        }
+        Regex::CharSet(set) => {
+            s.push_str("(set");
+            for cr in &set.0 {
+                match cr {
+                    CharOrRange::Char(c) => write!(s, " {}", *c as u32).unwrap(),
+                    CharOrRange::Range(a, b) => write!(s, " {}-{}", *a as u32, *b as u32).unwrap(),
+                }
+            }
+            s.push(')');
+        }
+        Regex::ZeroOrMore(r) => {
+            s.push_str("(star ");
+            regex_sexp_(s, r);
+            s.push(')');
+        }
+        Regex::OneOrMore(r) => {
+            s.push_str("(plus ");
+            regex_sexp_(s, r);
+            s.push(')');
+        }
+        Regex::ZeroOrOne(r) => {
+            s.push_str("(opt ");
+            regex_sexp_(s, r);
+            s.push(')');
+        }
+        Regex::Concat(a, b) => {
+            s.push_str("(cat ");
+            regex_sexp_(s, a);
+            s.push(' ');
+            regex_sexp_(s, b);
+            s.push(')');
+        }
+        Regex::Or(a, b) => {
+            s.push_str("(or ");
+            regex_sexp_(s, a);
+            s.push(' ');
+            regex_sexp_(s, b);
+            s.push(')');
+        }
+        Regex::Any => s.push_str("(any)"),
+        Regex::EndOfInput => s.push_str("(eoi)"),
+        Regex::Diff(a, b) => {
+            s.push_str("(diff ");
+            regex_sexp_(s, a);
+            s.push(' ');
+            regex_sexp_(s, b);
+            s.push(')');
+        }
+    }
+}
